@@ -3,7 +3,7 @@ from .. import sym
 from ..evalfn import SELF
 from ..sym import canon
 from . import core_rules
-from .common import ALGOS, CORE, G, Roles, cur, dominates, fld, guard_subset, has_lit, increments_by, loop_conditions, plain, short
+from .common import over_all_children, own_event, ALGOS, CORE, G, Roles, cur, dominates, fld, guard_subset, has_lit, increments_by, loop_conditions, plain, short
 from .core_rules import bound_args, equal, norm_versions
 
 TARGET = ("param", "target")
@@ -108,7 +108,8 @@ def rebalance_algo(chk, pid):
         for e in cl:
             g = G(e)
             child = e.args[0] if e.args else None
-            ok_iter = e.loops and e.loops[-1].iter[0] == "fld" and e.loops[-1].iter[2] == "children" and e.loops[-1].iter[1] == TARGET
+            # over every child: `for cname in target.children`, `.keys()`, `.items()` - the same iteration
+            ok_iter = e.loops and canon(e.loops[-1].iter) in (canon(("fld", TARGET, "children", 0)), ("dictiter", canon(("fld", TARGET, "children", 0))))
             targets = ("sub", ("fld", TARGET, "temp", 0), ("str", "weights"))
             not_in = sym.lit_holds(g, ("in", child, targets), False) if child is not None else False
             chk.ob("C06.R2", bool(ok_iter) and not_in, ALGOS, host, "close-non-targets", "every child that is not a target is considered for closing", where=e.where,
@@ -134,7 +135,7 @@ def rebalance_algo(chk, pid):
         # no early return between the base capture and the trailing refresh other than the missing-weights one
         n = core_rules.defer_rules(chk, "C06", modules=(ALGOS,), only_hosts=("Rebalance.__call__",))
         chk.floor_count("C06.R3:deferred calls in Rebalance", n, 2)
-        rets = [e for e in S.events if e.kind == "return" and e.chain == (fi.qual,)]
+        rets = [e for e in S.events if e.kind == "return" and tuple(e.chain) == (fi.qual,)]
         early = [r for r in rets if r.seq < rb[0].seq]
         ok = all(sym.lit_holds(sym.sat(r.guard), ("in", ("str", "weights"), ("fld", TARGET, "temp", 0)), False) for r in early)
         chk.ob("C06.R3", ok, ALGOS, host, "only-missing-weights-skips", "the algo does nothing only when no weights were set", where=fi.where)
@@ -199,7 +200,7 @@ def strategy_rebalance(chk, pid):
                "the caller's update flag is passed on", where=e.where)
     if pid in ("C06", "C17"):
         zw = ("zero", sym._abs_norm(sym.to_rat(weight)))
-        rets = [e for e in S.events if e.kind == "return" and e.chain == (fi.qual,)]
+        rets = [e for e in S.events if e.kind == "return" and tuple(e.chain) == (fi.qual,)]
         early = [e for e in rets if any(e.seq < t.seq for t in trades)]
         bad = [e for e in early if not sym.lit_holds(G(e), zw, True)]
         # an early exit inside one accounting mode belongs to that mode's property
@@ -293,7 +294,7 @@ def close_flatten(chk, pid):
             c = e.recv
             amt = e.args[0] if e.args else None
             ok = amt is not None and amt[0] == "neg" and amt[1][0] == "fld" and amt[1][2] == field and canon(amt[1][1]) == canon(c)
-            over_all = c[1][0] == "fld" and c[1][2] == "_childrenv"
+            over_all = over_all_children(c[1], SELF)
             filt = [l for l in loop_conditions(e) if not core_rules.mentions_field(l[0], "_fixed_income", SELF)]
             filt_ok = len(filt) == 1 and filt[0][1] is False and filt[0][0][0] == "zero" and core_rules.mentions_field(filt[0][0], field, c)
             chk.ob("C16.R2", ok and over_all and filt_ok, CORE, host2, "flatten-all:%s" % name, "flatten closes every child with an open position", where=e.where,
